@@ -179,6 +179,12 @@ inductive Op
   | txs (p : Nat)
   | own (p k : Nat)
   | byz (m : Msg)
+  /-- the node process stops and comes back (through the fast-sync hand-over with nothing to sync).
+  NOT a transition of the model: every item a node handles is in its write-ahead log before it is
+  handled and `SwitchToConsensus(state, skipWAL = blocksSynced > 0 || stateSynced)` makes the
+  consensus state replay that log, so the node is back in the state it was in — the model's node
+  state simply persists. The restart stream of the c01 harness checks exactly this on real nodes. -/
+  | restart (p : Nat)
 
 /-- node `p` hears its own queued messages in FIFO order until none is left (at most `fuel`) -/
 def Net.drainOwn (nc : NetCfg) (p : Nat) : Nat → Net → Net
@@ -208,5 +214,6 @@ def Net.apply (nc : NetCfg) (s : Net) (drain : Bool) : Op → Option Net
   | .txs p => if nc.correct p then some (s.feedD nc p .txsAvailable drain) else none
   | .own p k => if nc.correct p then some (s.feed nc p (.own k)) else none
   | .byz m => if nc.faulty m.sender = true ∨ m.ok = false then some (s.append m) else none
+  | .restart p => if nc.correct p then some s else none
 
 end Tmv.Net
